@@ -19,7 +19,24 @@ from .facts import REPO, VERIF
 from .variants import VARIANTS
 
 
+def _run_patch(prop, v, wt):
+    """an independently seeded change (seeded/<id>/patch.diff): applied with git, the property's own check must report it."""
+    r = subprocess.run(['git', '-C', wt, 'apply', v['patch']], stdout=subprocess.PIPE, stderr=subprocess.STDOUT, text=True)
+    if r.returncode != 0:
+        return {'variant': v['name'], 'status': 'stale', 'detail': 'patch does not apply: ' + r.stdout[-200:]}
+    try:
+        env = dict(os.environ, ORV_REPO=wt, ORV_NO_EVIDENCE='1', ORV_REPORTS=os.path.join(wt, '.orv-reports'))
+        r = subprocess.run([os.path.join(VERIF, 'orcheck'), prop, '--tier', 'quick'], stdout=subprocess.PIPE, stderr=subprocess.STDOUT, text=True, env=env)
+        fired = [l for l in r.stdout.split('\n') if (': ' + prop + '.R') in l]
+        status = 'caught' if r.returncode == 1 and fired else ('broken' if r.returncode == 2 else 'missed')
+        return {'variant': v['name'], 'rule': prop, 'status': status, 'exit': r.returncode, 'report': (fired[0][:300] if fired else r.stdout[-400:])}
+    finally:
+        subprocess.run(['git', '-C', wt, 'apply', '-R', v['patch']], stdout=subprocess.DEVNULL, stderr=subprocess.DEVNULL)
+
+
 def _run_variant(prop, v, wt):
+    if v.get('patch'):
+        return _run_patch(prop, v, wt)
     path = os.path.join(wt, v['file'])
     with open(path) as fh:
         s = fh.read()
@@ -52,6 +69,11 @@ def run(props, jobs=4):
     for p in props:
         for v in VARIANTS.get(p, []):
             work.append((p, v))
+        sd = os.path.join(VERIF, 'seeded')
+        for d in sorted(os.listdir(sd)) if os.path.isdir(sd) else ():
+            pf = os.path.join(sd, d, 'patch.diff')
+            if d.split('-')[0] == p and os.path.exists(pf):
+                work.append((p, {'name': 'seeded/%s: independent change by a sub-agent' % d, 'patch': pf}))
     if not work:
         return []
     jobs = max(1, min(jobs, len(work)))
